@@ -271,7 +271,10 @@ type strPos struct {
 
 func decBoth(doc string, stream int, gdst, sdst any) (error, error) {
 	var gerr error
-	if stream > 0 {
+	if stream < 0 {
+		// one cut: the first Read delivers -stream bytes, the second the rest
+		gerr = gojson.NewDecoder(&chunkReader{data: []byte(doc), cuts: []int{-stream}, failAt: -1}).Decode(gdst)
+	} else if stream > 0 {
 		gerr = gojson.NewDecoder(&cutReader{[]byte(doc), stream}).Decode(gdst)
 	} else {
 		gerr = gojson.Unmarshal([]byte(doc), gdst)
@@ -374,7 +377,7 @@ func c17DecodeLit(c *rt.Ctx, sub int, L string, streams []int) {
 			pan, msg, _ := rt.Guard(func() { gv, gerr, sv, serr = p.run(L, st) })
 			c.Eval(1)
 			mode := "buffer"
-			if st > 0 {
+			if st != 0 {
 				mode = "stream"
 			}
 			if pan {
@@ -536,6 +539,15 @@ func init() {
 						continue
 					}
 					c17DecodeLit(c, i, L, streams)
+					// the long literals (the last 24) and every 23rd other one also with one cut at every
+					// position of the document: all of the first piece is decoded without a refill
+					if i >= len(lits)-24 || i%23 == 0 {
+						var cuts []int
+						for k := 1; k < len(L)+10; k++ {
+							cuts = append(cuts, -k)
+						}
+						c17DecodeLit(c, i, L, cuts)
+					}
 				}
 				c.NonTrivialEnum(int64(len(lits)))
 				c.Obs("decode_literals", int64(len(lits)))
